@@ -24,6 +24,7 @@ structure Cur where
   sig2 : RState SigMap2.St := .ok {}
   race : RaceMap.St := {}
   metr : RState MetrMap.St := .ok {}
+  trim : RState TrimMap.St := .ok {}
   ack : RState AckMap.St := .ok {}
   wake : RState WakeMap.St := .ok {}
   pool : RState PoolMap.St := .ok {}
@@ -84,10 +85,14 @@ def finish (sel : List String) (c : Cur) (e : EndInfo) : IO Unit := do
     | .ok _ => ("ok", [])
     | .na _ => ("na", [])
     | .rejected ln why => ("Metr", [s!"M {c.idx} Metr line={ln} {why}"])
-  let model := if model8 != "ok" && model8 != "na" then model8 else if model7 != "ok" && model7 != "na" then model7 else if model6 != "ok" && model6 != "na" then model6 else if model5 != "ok" && model5 != "na" then model5 else if model1 != "ok" && model1 != "na" then model1 else if model2 != "ok" && model2 != "na" then model2 else if model3 != "ok" && model3 != "na" then model3 else if model4 != "ok" && model4 != "na" then model4 else "ok"
-  let mlines := ml1 ++ ml2 ++ ml3 ++ ml4 ++ ml5 ++ ml6 ++ ml7 ++ ml8
+  let (model9, ml9) : String × List String := match c.trim with
+    | .ok _ => ("ok", [])
+    | .na why => ("na", [s!"N {c.idx} Trim {why}"])
+    | .rejected ln why => ("Trim", [s!"M {c.idx} Trim line={ln} {why}"])
+  let model := if model9 != "ok" && model9 != "na" then model9 else if model8 != "ok" && model8 != "na" then model8 else if model7 != "ok" && model7 != "na" then model7 else if model6 != "ok" && model6 != "na" then model6 else if model5 != "ok" && model5 != "na" then model5 else if model1 != "ok" && model1 != "na" then model1 else if model2 != "ok" && model2 != "na" then model2 else if model3 != "ok" && model3 != "na" then model3 else if model4 != "ok" && model4 != "na" then model4 else "ok"
+  let mlines := ml1 ++ ml2 ++ ml3 ++ ml4 ++ ml5 ++ ml6 ++ ml7 ++ ml8 ++ ml9
   let nas := (if model1 == "na" then 1 else 0) + (if model2 == "na" then 1 else 0) + (if model3 == "na" then 1 else 0)
-  IO.println s!"RESULT {c.idx}{summary} model={model} na={nas} obs={tr.length} lines={c.nlines} ph={c.ph} sh={c.sh} nt={nt} ms=Res:{model1},Job:{model2},Sig:{model3},Ack:{model4},Wake:{model5},Pool:{model6},Sig2:{model7},Metr:{model8}"
+  IO.println s!"RESULT {c.idx}{summary} model={model} na={nas} obs={tr.length} lines={c.nlines} ph={c.ph} sh={c.sh} nt={nt} ms=Res:{model1},Job:{model2},Sig:{model3},Ack:{model4},Wake:{model5},Pool:{model6},Sig2:{model7},Metr:{model8},Trim:{model9}"
   for m in mlines do IO.println m
   for v in viols do IO.println v
 
@@ -113,6 +118,7 @@ partial def loop (h : IO.FS.Stream) (sel : List String) (c : Cur) : IO Unit := d
                                sig := SigMap.feed c.sig (c.nlines + 1) rl,
                                sig2 := SigMap2.feed c.sig2 (c.nlines + 1) rl,
                                metr := MetrMap.feed c.params.kind c.metr (c.nlines + 1) rl,
+                               trim := TrimMap.feed c.trim (c.nlines + 1) rl,
                                race := (if sel.contains "C19" then RaceMap.feed c.race rl else c.race),
                                ack := AckMap.feed c.ack (c.nlines + 1) rl,
                                wake := WakeMap.feed c.wake (c.nlines + 1) rl,
@@ -126,7 +132,7 @@ partial def loop (h : IO.FS.Stream) (sel : List String) (c : Cur) : IO Unit := d
       loop h sel { c with obs := c.obs.push (.ret g cid cl' r), nlines := c.nlines + 1, calls := c.calls.filter (·.1 != cid) }
     | some .recover =>
       -- a fresh process: object names start again, so the model replays start again
-      loop h sel { c with obs := c.obs.push .recover, nlines := c.nlines + 1, res := .ok (Res.init 1), job := .ok {}, sig := .ok {}, sig2 := .ok {}, metr := .ok {}, wake := .ok {}, pool := .ok {}, calls := [] }
+      loop h sel { c with obs := c.obs.push .recover, nlines := c.nlines + 1, res := .ok (Res.init 1), job := .ok {}, sig := .ok {}, sig2 := .ok {}, metr := .ok {}, trim := .ok {}, wake := .ok {}, pool := .ok {}, calls := [] }
     | some o =>
       let obs := match parseObs2 line with | some o2 => (c.obs.push o).push o2 | none => c.obs.push o
       loop h sel { c with obs := obs, nlines := c.nlines + 1 }
